@@ -265,3 +265,82 @@ func (g *Gen) worldBalanceProgram() *GProgram {
 	}
 	return g.prog
 }
+
+// hugeSum: the amount of a send is a sum / difference of monetary variables whose values do not fit
+// in a machine word (the sent value is evaluated more than once by the interpreter: preload, then run).
+func (g *Gen) hugeSumProgram() *GProgram {
+	asset := "USD"
+	g.asset = asset
+	two64 := new(big.Int).Lsh(bi(1), 64)
+	price := new(big.Int).Add(two64, bi(int64(g.r.Intn(1000))))
+	if g.r.Chance(1, 3) {
+		price.Lsh(price, uint(1+g.r.Intn(40)))
+	}
+	fee := bi(int64(1 + g.r.Intn(50)))
+	if g.r.Chance(1, 4) {
+		fee = new(big.Int).Add(two64, bi(int64(g.r.Intn(9))))
+	}
+	g.prog.Vars = append(g.prog.Vars, &GVarDecl{Type: "monetary", Name: "price"}, &GVarDecl{Type: "monetary", Name: "fee"})
+	g.rawVars["price"] = asset + " " + price.String()
+	g.rawVars["fee"] = asset + " " + fee.String()
+	op := "+"
+	total := new(big.Int).Add(price, fee)
+	if g.r.Chance(1, 3) {
+		op = "-"
+		total = new(big.Int).Sub(price, fee)
+	}
+	left, right := &GExpr{Kind: XVar, S: "price"}, &GExpr{Kind: XVar, S: "fee"}
+	if op == "+" && g.r.Chance(1, 4) {
+		left, right = right, left
+	}
+	amount := &GExpr{Kind: XInfix, Op: op, A: left, B: right}
+	// the paying account holds exactly the total, one unit less, or more
+	have := new(big.Int).Set(total)
+	switch g.r.Intn(4) {
+	case 0:
+		have.Sub(have, bi(1))
+	case 1:
+		have.Add(have, fee)
+	}
+	g.bal["a"] = map[string]*big.Int{asset: have}
+	src := srcAcct("a")
+	if g.r.Chance(1, 4) {
+		src = srcAcct("world")
+	}
+	g.prog.Stmts = append(g.prog.Stmts, &GStmt{Kind: StSend, Sent: &GSent{E: amount}, Src: src, Dst: dstAcct("c")})
+	if g.r.Chance(1, 3) {
+		g.prog.Stmts = append(g.prog.Stmts, &GStmt{Kind: StCall, Call: &GFnCall{Name: "set_tx_meta", Args: []*GExpr{{Kind: XString, S: "price"}, {Kind: XVar, S: "price"}}}})
+	}
+	return g.prog
+}
+
+// twoAssets: an account whose balance of one asset is read early (balance() origin), then used as a
+// bounded source for that asset and for ANOTHER one: both cells must have been requested.
+func (g *Gen) twoAssetsProgram() *GProgram {
+	g.asset = "USD"
+	x, y := "USD", "EUR"
+	if g.r.Chance(1, 2) {
+		x, y = y, x
+	}
+	g.bal["a"] = map[string]*big.Int{x: bi(int64(5 + g.r.Intn(30))), y: bi(int64(5 + g.r.Intn(30)))}
+	g.bal["b"] = map[string]*big.Int{x: bi(int64(g.r.Intn(10))), y: bi(int64(g.r.Intn(10)))}
+	if g.r.Chance(3, 4) {
+		g.prog.Vars = append(g.prog.Vars, &GVarDecl{Type: "monetary", Name: "seen",
+			Origin: &GFnCall{Name: "balance", Args: []*GExpr{acct("a"), {Kind: XAsset, S: x}}}})
+		g.prog.Stmts = append(g.prog.Stmts, &GStmt{Kind: StCall, Call: &GFnCall{Name: "set_tx_meta", Args: []*GExpr{{Kind: XString, S: "seen"}, {Kind: XVar, S: "seen"}}}})
+	}
+	send := func(asset string) {
+		n := bi(int64(1 + g.r.Intn(12)))
+		var src *GSource = srcAcct("a")
+		if g.r.Chance(1, 3) {
+			src = &GSource{Kind: SrcInorder, Subs: []*GSource{srcAcct("a"), srcAcct("b")}}
+		}
+		g.prog.Stmts = append(g.prog.Stmts, &GStmt{Kind: StSend, Sent: &GSent{E: lit(asset, n)}, Src: src, Dst: dstAcct("c")})
+	}
+	send(x)
+	send(y)
+	if g.r.Chance(1, 3) {
+		send(x)
+	}
+	return g.prog
+}
